@@ -525,7 +525,7 @@ def gen_stdin(rng):
     c = rng.random()
     if c < 0.2:
         return ""
-    lines = [rng.choice(["hello", "42", "", "ünï", "a b c", "3.5", "x,y"]) for _ in range(rng.randint(1, 4))]
+    lines = [rng.choice(["hello", "42", "", "ünï", "a b c", "3.5", "x,y", "  padded  ", "tab\t", " 7 ", "x\u00a0"]) for _ in range(rng.randint(1, 4))]
     s = "\n".join(lines)
     if rng.random() < 0.6:
         s += "\n"
